@@ -258,7 +258,19 @@ func runUMFull(c UCase) (Case, unmarshaler.UnmarshaledError) {
 	unchanged := fmt.Sprintf("%#v", deepView(input)) == snapshot
 	// repeat: unmarshaling the same input again must succeed or fail alike with identical observable state
 	stable, stableM := true, true
-	first := ""
+	// the reference is the FIRST call's own outcome (a call that consumed its input would otherwise go
+	// unnoticed: every later call would agree with every other later call)
+	first, haveFirst := "", false
+	if panicked == "" {
+		func() {
+			defer func() { _ = recover() }()
+			if err != nil {
+				first, haveFirst = "fail", true
+			} else if res != nil {
+				first, haveFirst = w.orerrRaw(res), true
+			}
+		}()
+	}
 	// a definition carrying two keys of one name: which of them binds must not depend on map
 	// iteration order (F10) - Go reverses a two-entry map in roughly one iteration out of eight,
 	// so many more repetitions are needed to see it
@@ -290,8 +302,8 @@ func runUMFull(c UCase) (Case, unmarshaler.UnmarshaledError) {
 			} else if r2 != nil {
 				cur = w.orerrRaw(r2)
 			}
-			if rep == 0 {
-				first = cur
+			if !haveFirst {
+				first, haveFirst = cur, true
 			} else if cur != first {
 				stable = false
 				if maskAddrs(cur) != maskAddrs(first) {
